@@ -46,7 +46,11 @@ func genHeaderValue(r *sim.Rand) string {
 	}
 	for i := 0; i < n; i++ {
 		if i > 0 {
-			b.WriteString(strings.Repeat(" ", 1+r.Intn(3)*r.Intn(2)))
+			nb := 1 + r.Intn(3)*r.Intn(2)
+			if r.Chance(1, 10) {
+				nb = 4 + r.Intn(100) // a long run of blanks, possibly straddling the fold column
+			}
+			b.WriteString(strings.Repeat(" ", nb))
 		}
 		l := 0
 		switch r.Intn(6) {
